@@ -145,4 +145,41 @@ def Rec.toParsed : Rec → Option Parsed
   | .comment s => some (.comment s.toList)
   | .evo _ => none
 
+/-! ## Grammar conformance of a stored record (what validation establishes) -/
+
+def ADFields.TextOK (f : ADFields) : Prop :=
+  ';' ∉ f.rackLabel.toList ∧ ';' ∉ f.rackId.toList ∧ ';' ∉ f.rackType.toList ∧ ';' ∉ f.tubeId.toList
+    ∧ ';' ∉ f.liquidClass.toList ∧ ';' ∉ f.forcedRackType.toList
+
+def RFields.TextOK (f : RFields) : Prop :=
+  ';' ∉ f.srcLabel.toList ∧ ';' ∉ f.srcId.toList ∧ ';' ∉ f.srcType.toList ∧ ';' ∉ f.dstLabel.toList
+    ∧ ';' ∉ f.dstId.toList ∧ ';' ∉ f.dstType.toList ∧ ';' ∉ f.liquidClass.toList
+
+/-- An `A;`/`D;` record the grammar admits: no separator in a text field, bounded label / ID / type
+    lengths, a volume within the format's range. -/
+def ADFields.WF (f : ADFields) : Prop :=
+  f.TextOK ∧ f.rackLabel.length ≤ Spec.maxTextLen ∧ f.rackId.length ≤ Spec.maxTextLen
+    ∧ f.rackType.length ≤ Spec.maxTextLen ∧ f.tubeId.length ≤ Spec.maxTextLen
+    ∧ f.forcedRackType.length ≤ Spec.maxTextLen ∧ 0 ≤ f.vol ∧ f.vol ≤ (Spec.maxRecordVolume : Rat)
+
+/-- An `R;` record the grammar admits. -/
+def RFields.WF (f : RFields) : Prop :=
+  f.TextOK ∧ f.srcLabel.length ≤ Spec.maxTextLen ∧ f.srcId.length ≤ Spec.maxTextLen
+    ∧ f.srcType.length ≤ Spec.maxTextLen ∧ f.dstLabel.length ≤ Spec.maxTextLen
+    ∧ f.dstId.length ≤ Spec.maxTextLen ∧ f.dstType.length ≤ Spec.maxTextLen
+    ∧ 0 ≤ f.vol.q ∧ 0 ≤ f.srcStart ∧ 0 ≤ f.srcEnd ∧ 0 ≤ f.dstStart ∧ 0 ≤ f.dstEnd ∧ f.direction ≤ 1
+    ∧ f.excluded.Pairwise (· ≤ ·) ∧ ∀ x ∈ f.excluded, f.dstStart ≤ x ∧ x ≤ f.dstEnd
+
+def Rec.WF : Rec → Prop
+  | .asp f => f.WF
+  | .disp f => f.WF
+  | .rd f => f.WF
+  | .wash n => n ∈ Spec.washSchemes
+  | .comment s => ';' ∉ s.toList ∧ '\n' ∉ s.toList ∧ s.toList ≠ []
+  | _ => True
+
+def Rec.isEvo : Rec → Bool
+  | .evo _ => true
+  | _ => false
+
 end Robotools
